@@ -44,7 +44,7 @@ PROPS = {
     'C05': dict(
         title='Scalar = average of the profile', level='other',
         groups=both(['plumb.profile_avg', 'isidist_pyx.B', 'spikedist_pyx.B', 'syncval_pyx.B', 'orderval_pyx.B',
-                     'pwc_avrg.B', 'pwl_avrg.B', 'disc_avrg.B']),
+                     'pwc_avrg.B', 'pwl_avrg.B', 'disc_avrg.B', 'pwc_integral.B', 'pwl_integral.B', 'disc_integral.B']),
         technique='wrappers executed on formal terms (scalar route vs averaged profile route); compiled single-pass routines: bounded self-composition with the profile kernels',
         explanation='for every entry point, call form, keyword class, emptiness pattern and interval the scalar route and the average of the '
                     'profile route reduce to the same normal form; compiled single-pass distances equal the average of the profile kernel; '
@@ -148,8 +148,8 @@ PROPS = {
     ),
     'C20': dict(
         title='Merging and histogramming conserve every spike', level='other',
-        groups=both(['merge.B']),
+        groups=both(['merge.B', 'psth.B']),
         technique='bounded symbolic execution over assumed numpy contracts (concatenate, sort, linspace, histogram)',
-        explanation='merge_spike_trains = sorted multiset union on the first interval; psth counts; rests on assumed library contracts',
+        explanation='merge_spike_trains = sorted multiset union on the first interval; psth = counts on equal bins (last bin closed), summing to the number of spikes; rests on assumed library contracts; generate_poisson_spikes (random draws) not covered',
     ),
 }
